@@ -143,7 +143,7 @@ def build_arg(a):
     import numpy as np
     k = a["kind"]
     if k == "sparse":
-        return vlib.build_array(a["spec"])
+        return vlib.build_array(a["spec"], idx_dtype=a.get("idx_dtype"))
     if k == "scipy":
         import scipy.sparse as sps
         d = vlib.spec_dense(a["spec"])
@@ -191,12 +191,14 @@ def impl_kernel(case):
         nd = case["ndim"]
         n = len(case["coords"])
         coords = np.array(case["coords"], dtype=np.intp).reshape(n, nd).T if n else np.zeros((nd, 0), dtype=np.intp)
+        coords = coords.astype(case.get("idx_dtype", "intp"))
         data = np.array(case["data"], dtype=np.int64)
         params = [None if p == 2 else bool(p) for p in case["params"]]
         try:
             c, d = U._get_expanded_coords_data(coords, data, params, tuple(case["bshape"]))
             c = np.asarray(c)
-            return {"coords": [[int(v) for v in col] for col in c.T.tolist()], "data": [int(v) for v in d]}
+            return {"coords": [[int(v) for v in col] for col in c.T.tolist()], "data": [int(v) for v in d],
+                    "intp": bool(c.dtype == np.intp)}
         except Exception as ex:  # noqa: BLE001
             return {"exc": type(ex).__name__}
     if k == "bc2":
@@ -761,6 +763,30 @@ def gen_api_cases(tier, rng):
             add(op, pick_binary_form(rng, op, args), args, None, "4d")
         else:
             add(rng.choice(["fma", "add3", "where", "clip3"]), "elemwise", args, None, "4d")
+    # (7) narrow index dtypes: a COO operand with uint8 / int8 coordinates broadcast along an axis that crosses
+    # 127 / 255 (the other extents stay tiny), as the single matched operand of a mask (add / sub / maximum with a
+    # sparse partner, or a full-shape / constant dense partner)
+    n7 = 36 if quick else 150
+    for _ in range(n7):
+        L = rng.choice([128, 130, 256, 260, 300])
+        k = rng.choice([1, 2, 3])
+        idt = rng.choice(["uint8", "uint8", "int8"])
+        lay = rng.choice(["lead", "len1"])
+        xsh = [k] if lay == "lead" else [1, k]
+        x = sparse_arg(rng, xsh, (0,), ("coo",), density=rng.choice([0.5, 1.0]))
+        x["idx_dtype"] = idt
+        partner = rng.choice(["sparse", "sparse", "dense", "densecol"])
+        if partner == "sparse":
+            y = sparse_arg(rng, [L, 1], (0,), ("coo", "coo", "gcxs"), density=0.02)
+            op = rng.choice(["add", "sub", "maximum", "add"])
+        elif partner == "dense":
+            y = dense_arg(rng, [L, k], 1)
+            op = "mul"
+        else:
+            y = dense_arg(rng, [L, 1], 2)
+            op = rng.choice(["mul", "add"])
+        args = [x, y] if rng.random() < 0.5 else [y, x]
+        add(op, pick_binary_form(rng, op, args), args, None, "narrow-index")
     return cases
 
 
@@ -803,6 +829,21 @@ def gen_kernel_cases(tier, rng):
             rng.shuffle(pos)                      # the function does not need sorted input
         ks.append({"k": "expand", "ndim": nd, "coords": pos, "data": [rng.randint(1, 9) for _ in pos],
                    "params": params, "bshape": bshape})
+    # the same with narrow coordinate dtypes and a broadcast axis crossing 127 / 255
+    for _ in range(40 if quick else 200):
+        L = rng.choice([128, 130, 256, 260, 300])
+        lay = rng.choice(["lead", "len1", "mid"])
+        k = rng.choice([1, 2, 3])
+        if lay == "lead":
+            bshape, params, sh = [L, k], [2, 1], [k]
+        elif lay == "len1":
+            bshape, params, sh = [L, k], [0, 1], [1, k]
+        else:
+            bshape, params, sh = [k, L, 2], [1, 0, 1], [k, 1, 2]
+        allidx = list(itertools.product(*[range(d) for d in sh]))
+        pos = [list(p) for p in allidx if rng.random() < 0.6] or [list(allidx[0])]
+        ks.append({"k": "expand", "ndim": len(sh), "coords": pos, "data": [rng.randint(1, 9) for _ in pos],
+                   "params": params, "bshape": bshape, "idx_dtype": rng.choice(["uint8", "int8", "uint8", "int16"])})
     # _get_broadcast_shape: ALL ordered pairs of shapes of <= 3-d, both values of is_result
     sh3 = shapes_upto(3)
     for s1 in sh3:
@@ -887,7 +928,8 @@ def py_arg(a):
     if a["kind"] == "sparse":
         s = a["spec"]
         nd = len(s["shape"])
-        base = (f"sparse.COO(np.array({s['coords']!r}, dtype=np.intp).reshape({len(s['coords'])}, {nd}).T, "
+        idt = a.get("idx_dtype") or "intp"
+        base = (f"sparse.COO(np.array({s['coords']!r}, dtype=np.{idt}).reshape({len(s['coords'])}, {nd}).T, "
                 f"np.array({s['data']!r}, dtype=np.int64), shape={tuple(s['shape'])!r}, fill_value=np.int64({s['fill']}))")
         if s["format"] == "gcxs":
             ca = "" if s.get("caxes") is None or nd < 2 else f", compressed_axes={tuple(s['caxes'])!r}"
@@ -948,8 +990,6 @@ def classify_api(case, res, code):
             clause = "python_scalar_with_empty_ndarray"
         elif code == 3 and got.startswith("corrupt-") and case["form"] in ("inplace", "out"):
             clause = "inplace_or_out_on_zero_extent_gcxs_dok"
-        elif code == 3 and case["op"] in ("isnan", "isinf") and case["form"] == "method" and msg == "None":
-            clause = "dok_isnan_isinf_returns_None"
         else:
             clause = f"{clause}:got_{got}"
     return {"property": "C01", "op": "elemwise", "call": f"{case['op']}/{case['form']}", "kind": kind, "clause": clause,
@@ -979,7 +1019,12 @@ def campaign(build, tier, seed, report, budget=1):
     imports = "From Verif Require Import Py Shape COO GCXS NpElemwise Elemwise SArr C01Judge."
     # ---- API level
     lits = [api_lit(c, r) for c, r in zip(api, res_api, strict=True)]
-    bad = build.judge("c01_api", imports, "api_case", "judge_api", lits, chunk=250)
+    small = [i for i, c in enumerate(api) if c["group"] != "narrow-index"]
+    big = [i for i, c in enumerate(api) if c["group"] == "narrow-index"]        # ~10^3 elements each: small chunks
+    bad = [(small[j], code) for j, code in
+           build.judge("c01_api", imports, "api_case", "judge_api", [lits[i] for i in small], chunk=250)]
+    bad += [(big[j], code) for j, code in
+            build.judge("c01_apin", imports, "api_case", "judge_api", [lits[i] for i in big], chunk=3, timeout=600)]
     for i, code in bad:
         viol.append(classify_api(api[i], res_api[i], code))
     # ---- the written-out same-shape binary model = the general model
@@ -999,9 +1044,10 @@ def campaign(build, tier, seed, report, budget=1):
     kinfo = {
         "match": ("list Z * list Z * list Z * list Z", "judge_match_arrays",
                   lambda c, r: vpair(vlist(c["a"]), vlist(c["b"]), vlist(r.get("ia", [-1])), vlist(r.get("ib", [])))),
-        "expand": ("list idx * list Z * list Z * shape * list idx * list Z", "judge_expand",
+        "expand": ("list idx * list Z * list Z * shape * list idx * list Z * bool", "judge_expand",
                    lambda c, r: vpair(vlist(c["coords"], vlist), vlist(c["data"]), vlist(c["params"]), vlist(c["bshape"]),
-                                      vlist(r.get("coords", [[-1]]), vlist), vlist(r.get("data", [])))),
+                                      vlist(r.get("coords", [[-1]]), vlist), vlist(r.get("data", [])),
+                                      vbool(r.get("intp", False)))),
         "bc2": ("shape * shape * bool * option shape * option shape", "judge_broadcast2",
                 lambda c, r: vpair(vlist(c["s1"]), vlist(c["s2"]), vbool(c["isr"]), vopt(r.get("impl"), vlist), vopt(r.get("np"), vlist))),
         "nary": ("list shape * option shape * option shape", "judge_nary",
